@@ -5,7 +5,7 @@ import numpy as np
 import torch
 
 from . import project, algrun
-from .g3run import rand_tt, dense_op, rel_err, mk_problem, check_tt, check_operands, TOL, U64
+from .g3run import opt_kwargs, rand_tt, dense_op, rel_err, mk_problem, check_tt, check_operands, TOL, U64
 from . import g3solve
 
 
@@ -35,12 +35,12 @@ def handler(st, opts):
             x = tt.zeros(N, dtype=dt)
         ref = (dense_op(A) @ project.dense(x.cores).reshape(-1)).reshape(M)
         g = rand_tt(tt, M, 2, gen, dt) if cfg["guess"] != "none" else None
-        kw = {}
+        kw = opt_kwargs(op, cfg.get("opt"))
         if cfg["guess"] == "zero":
             g = tt.zeros(M, dtype=dt)
         if cfg["guess"] in ("exact1", "exact2"):       # the exact product as the guess and a sweep budget of 1 / 2 (final-sweep branch)
             g = tt.TT(ref.clone(), eps=1e-14)
-            kw = {"nswp": int(cfg["guess"][-1])}
+            kw = dict(kw, nswp=int(cfg["guess"][-1]))
         objs, names = [A, x] + ([g] if g is not None else []), ["A", "x"] + (["initial"] if g is not None else [])
         outs = {}
         for be in ("py", "cpp"):
@@ -94,7 +94,8 @@ def handler(st, opts):
             snap = algrun.snapshot(objs)
             stats["calls"] += 1
             try:
-                X = tt.solvers.amen_solve(A, b, x0=g, eps=eps, max_full=cfg["maxfull"], preconditioner=prec, use_cpp=(be == "cpp"), verbose=False)
+                X = tt.solvers.amen_solve(A, b, x0=g, eps=eps, max_full=cfg["maxfull"], preconditioner=prec, use_cpp=(be == "cpp"), verbose=False,
+                                           **opt_kwargs(op, cfg.get("opt")))
             except Exception as ex:  # noqa
                 problems.append(mk_problem("C17", "exception", cfg, "backend %s raised %s: %s" % (be, type(ex).__name__, str(ex)[:200]), st, {"which": be}))
                 continue
